@@ -66,7 +66,8 @@ RoundTrip == (kind = "operand" /\ Admit(v.addr)) =>
   /\ SrcAddr(w, osel) = v.oaddr /\ Src(w, osel) = v.ok
   /\ SrcAddr(w, tsel) = 0 /\ Src(w, tsel) = 0
   /\ OpCode(w) = v.op % 128
-\* an operand outside the admitted range would decode to a different address: it must be refused
+\* an operand outside the admitted range would decode to a different address in this encoding: it must be refused
+\* (the replay accepts an implementation that admits more, as long as what it admits round-trips)
 OutOfRangeWraps == (kind = "operand" /\ ~Admit(v.addr)) => SrcAddr(Word, v.sel) # v.addr
 FunctionRoundTrip == (kind = "function" /\ FunAdmit(v.entry, v.params, v.locals)) =>
   ToFunction(NewFunction(v.entry, v.params, v.locals)) = [entry |-> v.entry, params |-> v.params, locals |-> v.locals]
